@@ -377,6 +377,16 @@ func oneChar(t *Term) bool {
 
 // strLitValue decodes an SMT string literal created by StrLit.
 func strLitValue(t *Term) (string, bool) {
+	if t.Sort.Base() == SInt {
+		if v, ok := intVal(t); ok {
+			for s, id := range strIDs {
+				if id == v && (v != 0 || s == "") {
+					return s, true
+				}
+			}
+		}
+		return "", false
+	}
 	if t.Op != "" || t.Sort != SString || len(t.Name) < 2 || t.Name[0] != '"' {
 		return "", false
 	}
@@ -445,7 +455,7 @@ func (e *Exec) trimModel(fn string, s, cutset *Term, left, right bool) *Term {
 		} else {
 			facts = append(facts, Eq(suf, StrLit("")))
 		}
-		AddAxiom(f, Forall([]*Term{x}, And(facts...), []*Term{r}))
+		AddInstAxiom(f, []*Term{x}, r, And(facts...))
 	}
 	return App(f, SString, s)
 }
@@ -560,7 +570,9 @@ func (e *Exec) newError(msg *Term, wrapped []*Term, typeName string) *Term {
 	r := e.alloc()
 	tag := namedTag(typeName)
 	ev := MkIface(tag, r)
-	e.assume(Implies(e.curReach, Eq(sfn("m_errmsg", SString, ev), msg)))
+	if msg.Sort == SString {
+		e.assume(Implies(e.curReach, Eq(sfn("m_errmsg", SString, ev), msg)))
+	}
 	bt := BoundVar("t", SIface)
 	w := Eq(bt, ev)
 	for _, x := range wrapped {
@@ -599,6 +611,25 @@ func (e *Exec) formatModel(c *ssa.CallCommon, args []Val) (*Term, []*Term) {
 	}
 	if !ok {
 		return Fresh("fmt", SString), nil
+	}
+	if opaqueStrings {
+		// only the %w operands matter; the text is an unknown (opaque) string
+		var wrapped []*Term
+		k := 0
+		for i := 0; i+1 < len(format); i++ {
+			if format[i] != '%' {
+				continue
+			}
+			i++
+			if format[i] == '%' {
+				continue
+			}
+			if k < len(ops) && format[i] == 'w' {
+				wrapped = append(wrapped, ops[k])
+			}
+			k++
+		}
+		return Fresh("fmt", sortOf(types.Typ[types.String])), wrapped
 	}
 	var parts []*Term
 	var wrapped []*Term
